@@ -534,4 +534,5 @@ def run(ctx):
     # split integrations: the synchronise at the end of integrate() must leave a keep_unsynchronized integrator exactly as it found it
     from . import c09
     c09.rule_keep_unsynchronized(ctx)
+    c09.rule_exact_finish(ctx)
     ctx.not_decided.append('the 1e-12 finishing tolerance and floating-point coincidences of (t, dt, tmax); step counts; bitwise equality of split integrations; which boundary an exit condition is first seen at')
